@@ -79,6 +79,7 @@ SPECIAL_INPUTS = {
     "bom_hello": b"\xef\xbb\xbfprint('hello')\n",
     "lone_cr_in_string": b"s = 'a\\rb'\nt = \"\"\"x\r\ny\rz\"\"\"\nprint(len(s), len(t))\n",
     "formfeed": b"x = 1\n\x0c\ny = 2\nprint(x + y)\n",
+    "unicode_linesep": "s = 'a\u2028b\u2029c\x85d'\nt = f'{s}\u2028{len(s)}'\nprint(len(s), len(t), ascii(s))\n".encode("utf-8"),
     "blank_line_in_string": b's = """first\n    \n\t\nlast  """\nprint(len(s), repr(s))\n',
     "indented_whole": b"    x = 1\n    print(x)\n",
     "trailing_space_lines": b"a = 1   \n\n   \nb = 'x  '   \nprint(a, b)\n   ",
@@ -303,7 +304,8 @@ def _invalid_item(rng, attr_names=None):
         if k < 0.5:
             name = rng.choice(attr_names or ATTR_NAMES)
         elif k < 0.8:
-            name = rng.choice(["zz%d" % rng.randint(0, 99), "unparse", "unparser2", "wrapper", "style", "un parser", "-", "\u00fcnparser"])
+            name = rng.choice(["zz%d" % rng.randint(0, 99), "unparse", "unparser2", "wrapper", "style", "un parser", "-", "\u00fcnparser",
+                               " unparser", "unparser ", "Unparser", "UNPARSER", "if-style", "if_style\n", "expr_wrapper\t"])
         else:
             name = ""
         return {"cls": "unknown_name", "name": name, "value": rng.choice(["oneliner", "list", "x", ""])}
@@ -312,7 +314,12 @@ def _invalid_item(rng, attr_names=None):
     if c < 0.84:
         name = rng.choice(OPTION_NAMES)
         others = [v for n in OPTION_NAMES if n != name for v in OPTION_SPACE[n]]
-        value = rng.choice(["bogus", "", "1", "None", "ast", "true"] + others)
+        # validation is "through the option descriptors": a value the descriptor rejects is illegal,
+        # including white-space and case variants of a legal one
+        legal = rng.choice(OPTION_SPACE[name])
+        near = [legal + "\n", " " + legal, legal + " ", legal.upper(), legal.capitalize(), legal + "\t", "\n" + legal, legal + "\r\n",
+                legal[:-1], legal + "x", "'" + legal + "'"]
+        value = rng.choice(["bogus", "", "1", "None", "ast", "true"] + others + near)
         return {"cls": "illegal_value", "name": name, "value": value}
     if c < 0.92:
         return {"cls": "bad_legacy", "value": rng.choice(["bogus", "", "one", "list"])}
@@ -488,11 +495,36 @@ def gen_base(seed: int, attr_names=None) -> dict:
 def follow_up(base: dict, res: dict, seed: int):
     """A second invocation on the file tree the first one left behind (same OUT): the result of
     run 2 must not depend on what run 1 wrote.  Returns a new base descriptor or None."""
-    if base["out_mode"] != "file" or res["status"] != 0 or base["in_state"] != "present":
+    if res["status"] != 0 or base["in_state"] != "present":
         return None
     if any(it["cls"] in INVALID_CLASSES for it in base["items"]) or base["out_state"] == "same_as_in":
         return None
     rng = _random.Random(derive_seed(seed, "followup"))
+    if base["out_mode"] == "stdout":
+        # `python -m oneliner in.py > out.txt` earlier, now `-o out.txt`: OUT holds the same result
+        # plus the newline print() added (or other surrounding white space): it must be rewritten
+        if base["knobs"].get("stdout_encoding", "utf-8") != "utf-8" or not res["stdout"]:
+            return None
+        d = {k: base[k] for k in ("prop", "in_path", "in_state", "knobs", "prog", "variant", "special")}
+        d["seed"] = seed
+        d["plan"] = []
+        d["out_mode"] = "file"
+        d["out_path"] = "out.txt" if SimFS.norm(base["in_path"]) != SimFS.norm("out.txt") else "out2.txt"
+        prev = bytes.fromhex(res["stdout"])
+        kind = rng.choice(["redirected_stdout", "redirected_stdout", "padded_result", "crlf_result"])
+        if kind == "padded_result":
+            prev = b"\n  " + prev.rstrip(b"\n") + b" \n\n"
+        elif kind == "crlf_result":
+            prev = prev.rstrip(b"\n") + b"\r\n"
+        d["followup"] = kind
+        files = dict(base["fs"]["files"])
+        files[d["out_path"]] = prev.hex()
+        d["fs"] = {"files": files, "dirs": list(base["fs"]["dirs"]), "ro": [], "unreadable": [],
+                   "mtimes": {base["in_path"]: 1000.0, d["out_path"]: 200000.0}}
+        d["roles"] = dict(base["roles"], **{d["out_path"]: "OUT"})
+        d["out_state"] = "longer"
+        d["parts"] = list(base["parts"]) + [{"kind": "out", "argv": ["-o", d["out_path"]]}]
+        return materialise(d)
     d = {k: base[k] for k in ("prop", "out_mode", "in_path", "out_path", "in_state", "roles", "knobs")}
     d["seed"] = seed
     d["plan"] = []
